@@ -249,7 +249,7 @@ def run(rep):
     n = 0
     for res in R.history_cases(rep.seed, thorough=rep.tier == 'thorough'):
         rep.add_bounded(f"{P}/bounded.history/{res['name']}", res['ok'], res['detail'],
-                        replay={'kind': 'c08.bulk'} if '|bulk:' in res['name'] else {'kind': 'c08.value'} if 'retrieved_equals_stored' in res['name'] else {'kind': 'c08.positional'} if 'positionally' in res['name'] else {'kind': 'c08.fresh'} if 'fresh_process' in res['name'] else {'kind': 'c08.refused_midway'} if 'refused_after_partial' in res['name'] else {'kind': 'c08.odd_path'} if 'special_characters' in res['name'] else {'kind': 'c08.criteria', 'name': res['name']} if 'retrieval_by_criteria' in res['name'] else {'kind': 'c08.sequence', 'ops': res.get('ops')})
+                        replay={'kind': 'c08.bulk'} if '|bulk:' in res['name'] else {'kind': 'c08.value'} if 'retrieved_equals_stored' in res['name'] else {'kind': 'c08.positional'} if 'positionally' in res['name'] else {'kind': 'c08.fresh'} if 'fresh_process' in res['name'] else {'kind': 'c08.refused_midway'} if 'refused_after_partial' in res['name'] else {'kind': 'c08.odd_path'} if 'special_characters' in res['name'] else {'kind': 'c08.criteria', 'name': res['name']} if 'retrieval_by_criteria' in res['name'] else {'kind': 'c08.like_named', 'name': res['name']} if 'material_without_properties' in res['name'] else {'kind': 'c08.sequence', 'ops': res.get('ops')})
         n += 1
     rep.extra_cov['explanation'] = (f"builders, per-operation statement sequences, retrieval equality and the static reads clause are discharged "
                                     f"obligations; equivalence with a dictionary model over operation histories is bounded ({n} histories this run) and "
